@@ -71,6 +71,8 @@ def pairs_of_op(op):
         return [(f, t, bool(fn or tn)) for f, fn in op[1] for t, tn in op[2]]
     if k == "connect_single":
         return [(op[1][0], op[2][0], bool(op[1][1] or op[2][1]))]
+    if k == "fanout":
+        return [(op[1], b, False) for b in range(op[2], op[3])]
     if k == "reuse":
         # one operand list object used for several requests in a row
         if op[1] in ("rshift", "connect_to"):
@@ -161,6 +163,9 @@ class World:
             p.connect([self.wrap(x) for x in op[1]], [self.wrap(x) for x in op[2]])
         elif k == "connect_single":
             p.connect(self.wrap(op[1]), self.wrap(op[2]))
+        elif k == "fanout":
+            # one module feeds very many others (more out-links than fit a byte)
+            M(op[1]) >> [M(b) for b in range(op[2], op[3])]
         elif k == "reuse":
             items = [self.wrap(x) for x in op[3]]
             before = list(items)
